@@ -1102,12 +1102,16 @@ class Gen(object):
         if op[0] == "lookup_link" and res[0] == "ok":
             self.link_handles[res[1]] = (op[1], op[2])
         if op[0] in ("remove", "delete", "set_link", "copy") and res[0] == "ok":
+            self.refresh_dead()            # the owner of the list may just have been deleted (with all its links)
             for h, (ph, l) in list(self.link_handles.items()):
                 if h in self.dead:
                     continue
+                if ph in self.dead:
+                    self.dead.add(h)       # never touch the Python object of a deleted owner
+                    continue
                 try:
                     ids = [x.id for x in getattr(self.r.obj(ph), LIST_ATTR[l])]
-                    if self.r.handles[h][2] not in ids or ph in self.dead:
+                    if self.r.handles[h][2] not in ids:
                         self.dead.add(h)
                 except Exception:
                     self.dead.add(h)
